@@ -65,6 +65,10 @@ def gen_calls(rng, n):
                 labels[lab] = repr("stale")
             call["post"] = [[[lab], 1], [[lab], 0]]
             kw.pop("initial_state", None)
+        if rng.random() < 0.2:
+            call["positional"] = True
+        if rng.random() < 0.2:
+            call["sched_tuple"] = True
         if kind in ("QUBO", "QUSO", "PUBO", "PUSO", "PCBO", "PCSO") and rng.random() < 0.25:
             call["remap"] = True          # the user renumbered the labels (set_mapping) before annealing
         if kind != "dict" and terms and "post" not in call and rng.random() < 0.2:
